@@ -339,6 +339,26 @@ def _exec_lists(cfg, ctx):
                     _bad(ctx, "lists.local_energy_of_exact_trial_is_not_the_eigenvalue", "multislater._calc_energy_restricted", cfg, walker=i, library=str(complex(e_r[i])), eigenvalue=e_exact, ref_det=ref)
                     break
             ctx.count("exact_energy_checks_restricted", len(good_r))
+    # whatever the list is (eigenvector or not), the measurement routines are those of the state it represents: force
+    # bias (automatic differentiation of the overlap) and local energy (finite differences, eps = 1e-4) against the
+    # mixed estimators <psi|L_g|phi>/<psi|phi> and <psi|H|phi>/<psi|phi> in Fock space
+    Lh = [sec.one_body(Lg) for Lg in np.asarray(ham_data["chol"]).reshape(-1, norb, norb)]
+    ok_i = [i for i in range(nw) if abs(ov_lib[i]) > 1e-2 * np.linalg.norm(sec.det_state(ups[i], dns[i])) * np.linalg.norm(psi)]
+    if ok_i:
+        fb_lib = np.asarray(jax.jit(lambda a, b, h, wd: trial.calc_force_bias([a, b], h, wd))(jnp.array(ups), jnp.array(dns), hd, wave_data))
+        e_all = np.asarray(jax.jit(lambda a, b, h, wd: trial.calc_energy([a, b], h, wd))(jnp.array(ups), jnp.array(dns), hd, wave_data))
+        for i in ok_i:
+            phi = sec.det_state(ups[i], dns[i])
+            o = np.vdot(psi, phi)
+            fbm = np.array([np.vdot(psi, L @ phi) / o for L in Lh])
+            if not np.max(np.abs(fb_lib[i] - fbm)) <= 1e-8 * max(1.0, float(np.max(np.abs(fbm)))):
+                _bad(ctx, "lists.force_bias_is_not_that_of_the_listed_state", "multislater._calc_force_bias", cfg, walker=i, library=[str(complex(x)) for x in fb_lib[i]], expected=[str(complex(x)) for x in fbm], ref_det=ref)
+                break
+            em = np.vdot(psi, H @ phi) / o
+            if not abs(e_all[i] - em) <= E_TOL_WALKER * max(1.0, abs(em)):
+                _bad(ctx, "lists.local_energy_is_not_that_of_the_listed_state", "multislater._calc_energy", cfg, walker=i, library=str(complex(e_all[i])), expected=str(complex(em)), ref_det=ref)
+                break
+        ctx.probe("mixed_estimators_checked", len(ok_i))
     if e_exact is not None:
         good = [i for i in range(nw) if abs(ov_lib[i]) > 1e-3 * np.linalg.norm(sec.det_state(ups[i], dns[i]))]
         e_lib = np.asarray(jax.jit(lambda a, b, h, wd: trial.calc_energy([a, b], h, wd))(jnp.array(ups), jnp.array(dns), hd, wave_data))
